@@ -141,7 +141,7 @@ func (in In) get(k string) interface{} {
 	return v
 }
 
-func (in In) I(k string) int64 { return toI(in.get(k)) }
+func (in In) I(k string) int64   { return toI(in.get(k)) }
 func (in In) I32(k string) int32 { return int32(toI(in.get(k))) }
 func (in In) Int(k string) int   { return int(toI(in.get(k))) }
 func (in In) S(k string) string {
@@ -307,7 +307,11 @@ func fromLimbs(l []int64) uint64 {
 // U64s rebuilds a list of words from a list of limb lists.
 func (in In) U64s(k string) []uint64 {
 	l := toList(in.get(k))
-	r := make([]uint64, len(l))
+	full := make([]uint64, len(l)+2) // spare capacity holding garbage, like bmFrom
+	for i := range full {
+		full[i] = ^uint64(0)
+	}
+	r := full[:len(l)]
 	for i, x := range l {
 		r[i] = fromLimbs(toIs(x))
 	}
